@@ -6,7 +6,7 @@ def generate(T, tier):
         {"name": "c20::desc_4", "group": "stub", "tier": "quick", "bounds": "Df88591String<4>: every content (all byte values, every length 0..=4) through Serialize -> tape -> Deserialize"},
         {"name": "c20::desc_7", "group": "stub", "tier": "thorough", "bounds": "Df88591String<7>: every content"},
         {"name": "c20::utf8_5", "group": "stub", "tier": "quick", "bounds": "ArrayString<5> built from <= 4 chars (any scalar values), including exactly at capacity"},
-        {"name": "c20::msg1230", "group": "stub", "tier": "quick", "bounds": "derived impl of Msg1230T: DataVec<_,4> with 0..=4 entries, SigId(any u8, any char), any non-NaN f32"},
+        {"name": "c20::msg1230", "group": "stub", "tier": "thorough", "bounds": "derived impl of Msg1230T: DataVec<_,4> with 0..=4 entries, SigId(any u8, any char), any non-NaN f32"},
         {"name": "c20::msg1006", "group": "stub", "tier": "thorough", "bounds": "derived impl of Msg1006T: all integer fields, four non-NaN f64"},
     ]
     return {
